@@ -97,6 +97,24 @@ CHECKS = {
         technique="TLA+ spec (Shell.tla) model-checked with TLC; impl->spec validation of real converter output by the "
                   "shell machine (ShellTrace.tla); /bin/sh and bash as independent environment",
     ),
+    "C10": dict(
+        category="model_checking",
+        text="Gen/Eval/Translate/VM with scope probes: programs in which a module body refers to a binding of the "
+             "enclosing file, a top-level expression refers to a parameter name or `item`, a function body refers to a "
+             "name bound only later, a name is rebound, a reserved word is bound, parameters coincide with outer bindings. "
+             "Checked in the model for every generated program: PrefixStable (every prefix's bindings reappear unchanged), "
+             "Agreement with the reference (closures over the definition-time scope, module isolation), NoPanic; "
+             "BindMonotone is an action property of VM.tla's main frame. Replayed: the whole program and EVERY proper "
+             "prefix are evaluated by FileBuilder::eval_string; each binding a prefix makes must be present and equal in "
+             "the whole program and equal to the specification's prediction; rebinding / reserved words / leaked names "
+             "must fail as predicted.",
+        design_ref="DESIGN.md §4.1-§4.3, §5/C10",
+        note="Trusted: TLC, vp/render.py, harness eval projection. Reserved words: the list of vm.rs reserved_words plus "
+             "`env`, written into Eval.tla. The rebind family is exhaustive in its bound, the scope families and the "
+             "full grammar are simulated.",
+        technique="TLA+ specs (Gen/Eval/VM) model-checked and simulated with TLC; spec->impl replay of every program and "
+                  "each of its prefixes",
+    ),
     "C11": dict(
         category="model_checking",
         text="Lexer.tla: the tokenizer of tokenizer/mod.rs (the ordered either! alternation, escapequoted, "
